@@ -26,8 +26,9 @@ Theorem C17_raise_only_at_limit : forall m vs reqs j v,
   In (j, v, None) (sync_log (Some m) vs reqs) -> m <= v.
 Proof. exact sync_log_raise_at_limit. Qed.
 
-(* One job, any pattern of failing attempts: the number of executions never exceeds the limit, and the
-   version counts the executions. *)
+(* One ISOLATED job (every rollback set is just the failing job), any pattern of failing attempts: the number of
+   executions never exceeds the limit, and the version counts the executions.  (Termination of run_job is by structural
+   recursion on the list of failing attempts: a property of the model, exercised -- not proved -- on the engine.) *)
 Theorem C17_bound : forall m faults,
   1 <= m ->
   let '(o, v', n) := run_job (Some m) 1 faults in N.of_nat n <= m /\ v' = N.of_nat n /\ v' <= m.
@@ -40,20 +41,21 @@ Theorem C17_exhaust : forall m k v rest,
   run_job (Some m) v (failing k ++ rest) = (Failed, m, N.to_nat (m - v + 1)).
 Proof. exact run_job_exhaust. Qed.
 
-(* Fewer failures than the limit allows: the job completes after k+1 executions (with or without a limit) *)
+(* For an isolated job: fewer failures than the limit allows => it completes after k+1 executions (with or without a limit) *)
 Theorem C17_completes_below_limit : forall lim k v rest,
   (match lim with Some m => v + N.of_nat k <= m | None => True end) ->
   run_job lim v (failing k ++ false :: rest) = (Completed, v + N.of_nat k, S k) /\
   run_job lim v (failing k) = (Completed, v + N.of_nat k, S k).
 Proof. exact run_job_completes. Qed.
 
-(* Without a rollback failure manager the first failure fails the run, and nothing runs twice. *)
+(* Without a rollback failure manager the first failure fails the run, and nothing runs twice.  (These two are computations
+   of the definition run_job_dummy; what ties them to DummyFailureManager is the CDummy correspondence and the oracle.) *)
 Theorem C17_dummy : forall rest, run_job_dummy (true :: rest) = (Failed, 1%nat).
 Proof. exact run_job_dummy_first_failure. Qed.
 Theorem C17_dummy_single_execution : forall faults, snd (run_job_dummy faults) = 1%nat.
 Proof. exact run_job_dummy_attempts. Qed.
 
-(* A pipeline with soft failures: fails iff some job has at least `limit` failing attempts; every started
+(* A chain of isolated jobs (pipeline with soft failures: each rollback set is the failing job alone): fails iff some job has at least `limit` failing attempts; every started
    job ran at most `limit` times and its version equals its number of executions. *)
 Theorem C17_chain : forall m ks,
   1 <= m ->
